@@ -371,7 +371,10 @@ func genEpisode(r *hx.Rng, ip *interp, run func(string) string, n int, st *genSt
 					st.inc("abort-then-topup")
 				}
 			}
-		case k < 91 && !search:
+		case k < 90:
+			run("rewind") // discarded block execution (process-local history): only the key cache may remember it
+			st.inc("rewind")
+		case k < 92 && !search:
 			// stake opcodes executed by a contract that is (or is not) some miner's account
 			_, stake, ac, typ, ok := e.knownMiner()
 			kc := ac
